@@ -335,6 +335,9 @@ ROOMS = (0, 1, 2, 3, 4, 5)
 #   ('snl_in', n)    SNL with n requests received (n answers pending)
 #   ('resolve', n)   resolve() of a name of n octets pending ('M-2': a request
 #                    that can never be sent)
+#   ('connect_out', rw, miu, dest)  connect() of a new socket with receive
+#                    window rw / receive MIU miu to dest pending (CONNECT in
+#                    the socket's send queue)
 PREPS = (
     ('base', 1, ()),
     # (a) acknowledgement owed / I PDUs not yet read
@@ -378,6 +381,16 @@ PREPS = (
     ('cc.pending.rw2', 2, (('pdu_in', 'connect33'), ('accept',))),
     ('cc.pending.rw0+dm.sap35', 0, (('pdu_in', 'connect33'), ('accept',),
                                     ('pdu_in', 'dm35'))),
+    # (f) an outgoing connect() pending: CONNECT queued with RW(local) 0 / 1 /
+    # 2, by address (no SN TLV), by name (SN TLV), with / without MIUX TLV
+    ('conn.out.rw0', 1, (('connect_out', 0, None, 16),)),
+    ('conn.out.rw1', 1, (('connect_out', 1, None, 16),)),
+    ('conn.out.rw2.miux', 1, (('connect_out', 2, 1024, 16),)),
+    ('conn.out.rw0.name', 1, (('connect_out', 0, None, b'urn:nfc:sn:none'),)),
+    ('conn.out.rw0.miux.name', 1, (('connect_out', 0, 1024,
+                                    b'urn:nfc:sn:c1'),)),
+    ('conn.out.rw0+acc1.read', 1, (('connect_out', 0, None, 16),
+                                   ('rx', ACC, 1, 1))),
     # combinations
     ('acc1.read+dyn1.read', 1, (('rx', ACC, 1, 1), ('rx', C1, 1, 1))),
     ('acc1.read+dm.sap35', 1, (('rx', ACC, 1, 1), ('pdu_in', 'dm35'))),
@@ -422,6 +435,7 @@ class DeepSpec(Spec):
                                % (out.exc, out.done))
         w.acc = acc[0]
         w.x36 = None
+        w.xs = []
 
     def build_done(self, w):
         w.c.append(w.acc)
@@ -498,6 +512,18 @@ class DeepSpec(Spec):
             fr = lp.xfer(B, A)
             assert fr is not None and fr.error is None
             assert len(A.sap[1].sdres) == st[1]
+        elif kind == 'connect_out':
+            import nfc.llcp.llc as llc
+            rw, miu, dest = st[1:]
+            s = A.socket(llc.DATA_LINK_CONNECTION)
+            A.setsockopt(s, nfc.llcp.SO_RCVBUF, rw)
+            if miu is not None:
+                A.setsockopt(s, nfc.llcp.SO_RCVMIU, miu)
+            r = lp.seq_call(lambda: A.connect(s, dest))
+            assert r[0] == 'blocked', r
+            assert [p.name for p in s.send_queue] == ['CONNECT']
+            assert s.send_queue[0].rw == rw, s.send_queue[0].rw
+            w.xs = w.xs + [s]
         elif kind == 'resolve':
             n = self.M - 2 if st[1] == 'M-2' else st[1]
             if isinstance(n, tuple):
@@ -516,7 +542,7 @@ class DeepSpec(Spec):
         """Octets the PDUs waiting in A's socket send queues would take in
         one aggregated frame (2 octets length prefix + PDU each)."""
         t = 0
-        for s in [w.la, w.als] + w.c + ([w.x36] if w.x36 else []):
+        for s in [w.la, w.als] + w.c + ([w.x36] if w.x36 else []) + w.xs:
             for p in s.send_queue:
                 t += 2 + len(p)
         return t
